@@ -358,6 +358,20 @@ pub fn run(runner: &mut Runner, data_dir: &str, behaviours: Option<&str>, seed: 
             bag_case(runner, &mut rng, "half-calibrated-pad", format!("h{c}.{rw}"), 11084, banks, 4, 2);
         }
     }
+    // (2e) the same hit in two (and three) pad columns: avalanches with bit-identical time, z and amplitudes in
+    //      different columns - any ordering the library chooses for them must be the same every time
+    for ci in 0..(if thorough { 12 } else { 3 }) {
+        let mut ev = sim::SimEvent { wires: Default::default(), pads: Default::default(), hits: vec![], vertex: (0.0, 0.0, 0.0) };
+        let base_wire = (8 + 8 * ci + 3) & 0xff;
+        let (tbin, z, amp) = (50 + ci, sim::row_z(100 + 17 * ci), 150.0);
+        for k in 0..(2 + ci % 2) {
+            let h = sim::Hit { wire: (base_wire + 8 * (5 + 3 * k)) & 0xff, tbin, z, amp };
+            sim::add_hit(&ctx, &mut ev, &h, 1.1);
+            ev.hits.push(h);
+        }
+        let banks = sim::to_banks(&ctx, &ev, 4000 + ci as u32, 1.0, 0.0, &mut rng);
+        bag_case(runner, &mut rng, "twin-columns", format!("w{ci}"), SIM, banks, 6, 2);
+    }
     // (2c) a simulated event in which a second PWB message (chunk headers of another chip) claims the pads of
     //      an existing one with different, non-empty waveforms: whatever the verdict, it must be the same every time
     for ci in 0..(if thorough { 20 } else { 3 }) {
